@@ -22,6 +22,24 @@ CLAIMED = {
  "C15": ("corr-pure", "Lean 4 theorems (decision logic of init_and_get_adapter / LocalProxy.init / adapters stated outright) + correspondence against stub simulators recording the requests they receive",
          "Rejection iff (>= 4, explicit mismatch, v3 claim without v3 signatures); < 3 => step has exactly 2 args and type defaults to time-based; < 2.2 => no setup_done; >= 3 => every request unchanged; time_resolution only when the signatures take it: theorems for versions of any length. Correspondence on in-process stubs over version strings x explicit settings x signature shapes.",
          "Remote transport is modelled (isLocal=false) but exercised only in-process; version strings numeric. Trusted: Lean kernel, correspondence harness, mosaik_api_v3.check_api_compliance as modelled."),
+ "C01": ("corr-sched", "Lean 4 invariant proofs over all runs of the scheduler transition system (induction over actions) + reply-by-reply correspondence with the real scheduler under a controlled event loop",
+         'Causal input readiness for every reachable state and every run of the scheduler transition system (theorems causal_state, causal_begin, causal_run), i.e. all interleavings, behaviours, topologies incl. groups/weak/shifted/async, lazy and cache on or off. Tie: reply-by-reply correspondence of the model with the real scheduler under a controlled event loop, plus the property monitor on the implementation traces.',
+         'Hypotheses WFCfg on the configuration (closure of the triggering-ancestor table, trigger delays >= input delays, shapes) are evaluated by the driver on every generated scenario (Cfg.wfB, proved sound: wfB_sound); scenarios with re-entrant paths (finding D7) are outside. Non-real-time mode. Simulators always answer. Trusted: Lean kernel, correspondence harness (controlled asyncio loop, scripted simulators), asyncio/heapq/dict as modelled.'),
+ "C02": ("corr-sched", "Lean 4 invariant proofs over all runs of the scheduler transition system (induction over actions) + reply-by-reply correspondence with the real scheduler under a controlled event loop",
+         'Safety half as theorems: steps strictly increasing, no duplicates, inside [0, until), each the earliest scheduled step at its begin; scheduled steps are never behind progress. The liveness half (every demanded step is executed) is NOT a theorem (partial): it is decided by the monitor on implementation traces and the correspondence only.',
+         'Hypotheses WFCfg on the configuration (closure of the triggering-ancestor table, trigger delays >= input delays, shapes) are evaluated by the driver on every generated scenario (Cfg.wfB, proved sound: wfB_sound); scenarios with re-entrant paths (finding D7) are outside. Non-real-time mode. Simulators always answer. Trusted: Lean kernel, correspondence harness (controlled asyncio loop, scripted simulators), asyncio/heapq/dict as modelled. Partial: completeness not proved.'),
+ "C05": ("corr-sched", "Lean 4 invariant proofs over all runs of the scheduler transition system (induction over actions) + reply-by-reply correspondence with the real scheduler under a controlled event loop",
+         "Theorem no_internal_error_partial: no reachable state has failed with 'progress backwards' or 'step in the past'; advance_progress never decreases; awaited times never exceed the end. Deadlock freedom and termination are NOT theorems yet (partial): decided by the monitor (deadlock = idle loop with unfinished run()) and the correspondence only.",
+         'Hypotheses WFCfg on the configuration (closure of the triggering-ancestor table, trigger delays >= input delays, shapes) are evaluated by the driver on every generated scenario (Cfg.wfB, proved sound: wfB_sound); scenarios with re-entrant paths (finding D7) are outside. Non-real-time mode. Simulators always answer. Trusted: Lean kernel, correspondence harness (controlled asyncio loop, scripted simulators), asyncio/heapq/dict as modelled. Partial: deadlock_free/terminates not proved. Known finding D7 (incomparable delays for re-entrant paths).'),
+ "C09": ("corr-sched", "Lean 4 invariant proofs over all runs of the scheduler transition system (induction over actions) + reply-by-reply correspondence with the real scheduler under a controlled event loop",
+         'Theorems: the loop guard fires exactly when a step with a sub-tier >= max_loop_iterations would begin (iff, naming the simulator), every begun step has all sub-tiers below the bound, sub-step indices at one time are pairwise distinct (depth 2: at most max_loop_iterations sub-steps).',
+         'Hypotheses WFCfg on the configuration (closure of the triggering-ancestor table, trigger delays >= input delays, shapes) are evaluated by the driver on every generated scenario (Cfg.wfB, proved sound: wfB_sound); scenarios with re-entrant paths (finding D7) are outside. Non-real-time mode. Simulators always answer. Trusted: Lean kernel, correspondence harness (controlled asyncio loop, scripted simulators), asyncio/heapq/dict as modelled.'),
+ "C10": ("corr-sched", "Lean 4 invariant proofs over all runs of the scheduler transition system (induction over actions) + reply-by-reply correspondence with the real scheduler under a controlled event loop",
+         "Theorems lazy_begin / lazy_forever: with lazy stepping, when a producer begins t every consumer's progress, step in flight and scheduled steps are at or after t (adapted), and stay so for the rest of any run.",
+         'Hypotheses WFCfg on the configuration (closure of the triggering-ancestor table, trigger delays >= input delays, shapes) are evaluated by the driver on every generated scenario (Cfg.wfB, proved sound: wfB_sound); scenarios with re-entrant paths (finding D7) are outside. Non-real-time mode. Simulators always answer. Trusted: Lean kernel, correspondence harness (controlled asyncio loop, scripted simulators), asyncio/heapq/dict as modelled.'),
+ "C13": ("corr-sched", "Lean 4 invariant proofs over all runs of the scheduler transition system (induction over actions) + reply-by-reply correspondence with the real scheduler under a controlled event loop",
+         'Theorems: each malformed reply (non-integer, not later, missing for time-based, early output time) aborts with an error naming the simulator in whatever state it arrives; after the abort no action is enabled; the rejected reply changes no control state; conversely a bad-reply error has exactly one of these causes (step_err).',
+         'Hypotheses WFCfg on the configuration (closure of the triggering-ancestor table, trigger delays >= input delays, shapes) are evaluated by the driver on every generated scenario (Cfg.wfB, proved sound: wfB_sound); scenarios with re-entrant paths (finding D7) are outside. Non-real-time mode. Simulators always answer. Trusted: Lean kernel, correspondence harness (controlled asyncio loop, scripted simulators), asyncio/heapq/dict as modelled.'),
 }
 
 NOT_YET = {
